@@ -6,6 +6,7 @@ package e3
 
 import (
 	"fmt"
+	"os"
 	"runtime"
 	"sort"
 	"strings"
@@ -89,6 +90,11 @@ type Scenario struct {
 	// only use lock-free observations (State(), metrics getters) — never a mutex a gated
 	// thread could hold.
 	Monitor func(e *Env)
+	// Policies: the canonical orders around which the departure-bounded search runs, one
+	// full search per entry (default: just ""). "" = last-run thread continues, then name
+	// order; vsched.LibFirst = the environment acts as late as possible; a vsched.Sticky
+	// suffix makes departures sticky (delay bounding).
+	Policies []string
 	// Finish runs after all threads finished and the scheduler was deactivated and the
 	// system settled: final-state oracle and orderly shutdown.
 	Finish func(e *Env)
@@ -147,6 +153,15 @@ func RunOnce(t *testing.T, sc Scenario, prefix []int, onLeak func(string), demot
 		}
 		res.Trace = s.Trace
 		res.Viols = e.viols
+		if os.Getenv("VERIF_E3_TRACE") != "" {
+			for i, d := range s.Trace {
+				fmt.Printf("e3trace %s %d chosen=%d runningEnabled=%v sel=%v", sc.Name, i, d.Chosen, d.RunningEnabled, d.Select)
+				for k := range d.Enabled {
+					fmt.Printf(" | %s @ %s", d.Enabled[k], d.Labels[k])
+				}
+				fmt.Println()
+			}
+		}
 		res.Outcome = strings.Join(e.notes, ";")
 		res.Diverged = s.Diverged
 		res.Hung = s.Hung
@@ -262,7 +277,9 @@ func Explore(c *vfw.Ctx, t *testing.T, sc Scenario, bound int) Stats {
 			}
 			for _, v := range r.Viols {
 				how := fmt.Sprintf("schedule with %d departures %v", departures(full), scheduleText(r))
-				if curDemote != "" {
+				if isPolicy(curDemote) {
+					how = polName(curDemote) + " canonical order, " + how
+				} else if curDemote != "" {
 					how = fmt.Sprintf("starvation schedule (thread %s runs only when nothing else can)", curDemote)
 				}
 				c.Violate(sc.Name+":"+v.Key, fmt.Sprintf("scenario %s, %s: %s", sc.Name, how, v.Desc),
@@ -280,7 +297,7 @@ func Explore(c *vfw.Ctx, t *testing.T, sc Scenario, bound int) Stats {
 			return
 		}
 		current = prefix
-		r := RunOnce(t, sc, prefix, onLeak)
+		r := RunOnce(t, sc, prefix, onLeak, curDemote)
 		if len(prefix) > 0 && len(r.Trace) >= len(prefix) && r.Trace[len(prefix)-1].Ineffective {
 			st.Pruned++ // the chosen select case was not ready: identical to the canonical choice
 			return
@@ -302,30 +319,41 @@ func Explore(c *vfw.Ctx, t *testing.T, sc Scenario, bound int) Stats {
 			}
 		}
 	}
-	// root: every shard runs it to enumerate the level-1 alternatives; shard 0 accounts for it
-	root := RunOnce(t, sc, nil, onLeak)
-	if c.Shard == 0 {
-		if !handle(root, nil) {
+	policies := sc.Policies
+	if len(policies) == 0 {
+		policies = []string{""}
+	}
+	var root Result
+	for _, pol := range policies {
+		curDemote, current = pol, nil
+		// root: every shard runs it to enumerate the level-1 alternatives; shard 0 accounts for it
+		root = RunOnce(t, sc, nil, onLeak, pol)
+		if c.Shard == 0 {
+			if !handle(root, nil) {
+				return st
+			}
+		} else if root.Diverged != "" {
 			return st
 		}
-	} else if root.Diverged != "" {
-		return st
-	}
-	if bound >= 1 {
-		k := 0
-		for i := 0; i < len(root.Trace); i++ {
-			for alt := 1; alt < len(root.Trace[i].Enabled); alt++ {
-				mine := c.Shards <= 1 || k%c.Shards == c.Shard
-				k++
-				if !mine {
-					continue
+		if pol != "" {
+			c.Add("libfirst_policy_roots:"+sc.Name, 1)
+		}
+		if bound >= 1 {
+			k := 0
+			for i := 0; i < len(root.Trace); i++ {
+				for alt := 1; alt < len(root.Trace[i].Enabled); alt++ {
+					mine := c.Shards <= 1 || k%c.Shards == c.Shard
+					k++
+					if !mine {
+						continue
+					}
+					np := make([]int, i+1)
+					for j := 0; j < i; j++ {
+						np[j] = root.Trace[j].Chosen
+					}
+					np[i] = alt
+					sub(np, 1)
 				}
-				np := make([]int, i+1)
-				for j := 0; j < i; j++ {
-					np[j] = root.Trace[j].Chosen
-				}
-				np[i] = alt
-				sub(np, 1)
 			}
 		}
 	}
@@ -367,6 +395,24 @@ func Explore(c *vfw.Ctx, t *testing.T, sc Scenario, bound int) Stats {
 	c.Add("pruned_ineffective_select:"+sc.Name, int64(st.Pruned))
 	c.Set("max_decisions_"+sc.Name, st.MaxDecisions)
 	return st
+}
+
+func isPolicy(d string) bool {
+	return d == vsched.LibFirst || d == vsched.Sticky || d == vsched.LibFirst+vsched.Sticky
+}
+
+func polName(d string) string {
+	switch d {
+	case "":
+		return "default"
+	case vsched.LibFirst:
+		return "library-first"
+	case vsched.Sticky:
+		return "default+sticky-departures"
+	case vsched.LibFirst + vsched.Sticky:
+		return "library-first+sticky-departures"
+	}
+	return "demote:" + d
 }
 
 func departures(ch []int) int {
